@@ -38,9 +38,10 @@ type HS struct {
 	C uint64 `json:"c"`
 }
 type Expect struct {
-	Snap IT   `json:"snap"`
-	Hs   HS   `json:"hs"`
-	Ents []IT `json:"ents"`
+	Snap IT     `json:"snap"`
+	Hs   HS     `json:"hs"`
+	Ents []IT   `json:"ents"`
+	Err  string `json:"err"` // "none" or the error the model expects wal.Open / ReadAll to end with (the node cannot start)
 }
 type Step struct {
 	Op     string  `json:"op"`
@@ -49,6 +50,7 @@ type Step struct {
 	C      uint64  `json:"c"`
 	Ents   []IT    `json:"ents"`
 	Sync   bool    `json:"sync"`
+	Cut    bool    `json:"cut"` // this Save finds the segment full: it ends with a segment cut
 	Kept   int     `json:"kept"`
 	Expect *Expect `json:"expect"`
 }
@@ -113,7 +115,11 @@ func child(waldir, snapdir, stepsJSON string, segsize int64) {
 			for _, e := range s.Ents {
 				ents = append(ents, raftpb.Entry{Index: e.I, Term: e.T, Data: payload(e.I, e.T)})
 			}
+			if s.Cut {
+				wal.SegmentSizeBytes = 1
+			}
 			err = w.Save(raftpb.HardState{Term: s.T, Vote: 1, Commit: s.C}, ents)
+			wal.SegmentSizeBytes = segsize
 		case "snapfile":
 			err = ss.SaveSnap(raftpb.Snapshot{Data: []byte(fmt.Sprintf("state at %d", s.I)),
 				Metadata: raftpb.SnapshotMetadata{Index: s.I, Term: s.T, ConfState: raftpb.ConfState{Voters: []uint64{1, 2, 3}}}})
@@ -173,6 +179,11 @@ func main() {
 	segsize := fs.Int64("segsize", 256*1024, "child: wal.SegmentSizeBytes")
 	segsizes := fs.String("segsizes", "262144", "run: every scenario once per segment size (comma separated)")
 	minsnaps := fs.Int("minsnaps", 0, "run: only scenarios with at least this many WAL snapshot records")
+	mincuts := fs.Int("mincuts", 0, "run: only scenarios with at least this many Saves that end with a segment cut")
+	maxcuts := fs.Int("maxcuts", 1<<30, "run: only scenarios with at most this many cutting Saves")
+	maxdamage := fs.Int("maxdamage", 1<<30, "run: only scenarios with at most this many damaged snapshot files")
+	pick := fs.Int("pick", 1, "run: only one scenario in this many (chosen by id and -seed)")
+	seed := fs.Int("seed", 1, "")
 	fs.Parse(os.Args[2:])
 	if mode == "child" {
 		child(*waldir, *snapdir, *steps, *segsize)
@@ -221,7 +232,22 @@ func main() {
 				nsnap++
 			}
 		}
-		if nsnap < *minsnaps {
+		ncut := 0
+		for _, st := range s.Steps {
+			if st.Op == "save" && st.Cut {
+				ncut++
+			}
+		}
+		ndmg := 0
+		for _, st := range s.Steps {
+			if st.Op == "damage" {
+				ndmg++
+			}
+		}
+		if nsnap < *minsnaps || ncut < *mincuts || ncut > *maxcuts || ndmg > *maxdamage {
+			continue
+		}
+		if *pick > 1 && (uint64(s.ID)*2654435761+uint64(*seed)*40503)%uint64(*pick) != 0 {
 			continue
 		}
 		ran++
@@ -258,7 +284,11 @@ func runScenario(self, work string, s Scenario, size string, enc *json.Encoder, 
 			if len(stderr) > 600 {
 				stderr = stderr[len(stderr)-600:]
 			}
-			enc.Encode(finding{size, "recovery-died", s.ID, epoch, s.Steps, expect, nil, "the node's recovery path did not return (process exit): " + stderr})
+			kind := "recovery-died"
+			if expect != nil && expect.Err != "" && expect.Err != "none" {
+				kind = "recovery-died-as-modelled" // the model (an as-built instance run without Acceptable) predicts that the node cannot start
+			}
+			enc.Encode(finding{size, kind, s.ID, epoch, s.Steps, expect, nil, "the node's recovery path did not return (process exit): " + stderr})
 			return false
 		}
 		if expect != nil {
@@ -294,6 +324,16 @@ func runScenario(self, work string, s Scenario, size string, enc *json.Encoder, 
 			first = false
 		case "recover":
 			pendingExpect = st.Expect
+		case "damage":
+			// the process is down: one byte of the snapshot file changes (the snapshotter's CRC check sets the file aside)
+			fn := filepath.Join(sd, fmt.Sprintf("%016x-%016x.snap", st.T, st.I))
+			if b, err := os.ReadFile(fn); err == nil && len(b) > 0 {
+				b[len(b)/2] ^= 0x5a
+				os.WriteFile(fn, b, 0600)
+			} else {
+				enc.Encode(finding{size, "step-failed", s.ID, epoch, s.Steps, nil, nil, "damage: snapshot file " + fn + " is not there"})
+				ok = false
+			}
 		default:
 			cur = append(cur, st)
 		}
